@@ -7,6 +7,7 @@ import (
 	"encoding/hex"
 	"fmt"
 	"path/filepath"
+	"sync/atomic"
 	"testing"
 	"time"
 
@@ -17,6 +18,25 @@ import (
 	"go.sia.tech/hostd/v2/persist/sqlite"
 	"go.uber.org/zap"
 )
+
+// parkStore lets the harness hold a Put between its read of the stored entry and what
+// follows, so that a second Put can be raced against it (schedule exploration at the
+// granularity of the manager's store calls).
+type parkStore struct {
+	*sqlite.Store
+	armed   atomic.Bool
+	parked  chan struct{}
+	release chan struct{}
+}
+
+func (p *parkStore) GetRegistryValue(key rhp3.RegistryKey) (rhp3.RegistryValue, error) {
+	v, err := p.Store.GetRegistryValue(key)
+	if p.armed.CompareAndSwap(true, false) {
+		p.parked <- struct{}{}
+		<-p.release
+	}
+	return v, err
+}
 
 // TestVerifC20 drives the real registry.Manager over a real sqlite.Store with generated
 // Put/Get/limit-change histories and records what it did for the Coq model (Registry/Model.v).
@@ -51,7 +71,8 @@ func TestVerifC20(t *testing.T) {
 		if err != nil {
 			t.Fatal(err)
 		}
-		reg := registry.NewManager(hostKey, db, log)
+		ps := &parkStore{Store: db, parked: make(chan struct{}), release: make(chan struct{})}
+		reg := registry.NewManager(hostKey, ps, log)
 
 		vids := map[string]uint64{}
 		vidOf := func(v rhp3.RegistryValue) string {
@@ -177,7 +198,11 @@ func TestVerifC20(t *testing.T) {
 			if hasOld && valid {
 				tie = rhp3.ValidateRegistryUpdate(rhp3.RegistryEntry{RegistryKey: key, RegistryValue: old}, e, hostID) == nil
 			}
+			cntBefore, limBefore, _ := reg.Entries()
 			ret, err := reg.Put(e, 100)
+			if err == nil && !hasOld && cntBefore >= limBefore {
+				em.Monitor("insert-accepted-without-room", fmt.Sprintf("new key %d accepted with count %d >= limit %d", k, cntBefore, limBefore))
+			}
 			em.Step(fmt.Sprintf("Put %d %s %s %s", k, entryOf(e.RegistryValue), coqBool(valid), coqBool(tie)),
 				fmt.Sprintf("OPut %s %s", coqBool(err == nil), vidOf(ret)))
 			em.Count("op:Put")
@@ -194,6 +219,69 @@ func TestVerifC20(t *testing.T) {
 			} else if hasOld && valid && vidOf(ret) != vidOf(old) {
 				em.Monitor("rejected-update-did-not-return-stored-entry", fmt.Sprintf("key %d", k))
 			}
+		}
+
+		// race: two Puts on one key, the first held right after it read the stored entry.
+		// Whatever the interleaving, the outcome must be that of one of the two orders;
+		// the steps are recorded in the order in which the Puts took effect.
+		race := func(k int) {
+			key := keyOf(k)
+			mk := func(rev uint64, d byte) rhp3.RegistryEntry {
+				e := rhp3.RegistryEntry{RegistryKey: key, RegistryValue: rhp3.RegistryValue{Revision: rev, Type: rhp3.EntryTypeArbitrary, Data: []byte{d, 0xee}}}
+				e.Signature = renters[k/2].SignHash(e.Hash())
+				return e
+			}
+			ea, eb := mk(uint64(rng.Intn(4)), 1), mk(uint64(rng.Intn(4)), 2)
+			pre, perr := reg.Get(key)
+			hasPre := perr == nil
+			type result struct {
+				ret rhp3.RegistryValue
+				err error
+			}
+			ra, rb := make(chan result, 1), make(chan result, 1)
+			ps.armed.Store(true)
+			go func() { v, err := reg.Put(ea, 100); ra <- result{v, err} }()
+			<-ps.parked
+			go func() { v, err := reg.Put(eb, 100); rb <- result{v, err} }()
+			var resA, resB result
+			first, second := ea, eb
+			select {
+			case resB = <-rb: // B overtook the parked A
+				first, second = eb, ea
+				ps.release <- struct{}{}
+				resA = <-ra
+				em.Count("race:second-put-overtook")
+			case <-time.After(60 * time.Millisecond): // B waits for A: Put is atomic
+				ps.release <- struct{}{}
+				resA = <-ra
+				resB = <-rb
+				em.Count("race:second-put-waited")
+			}
+			res1, res2 := resA, resB
+			if first.Data[0] == 2 {
+				res1, res2 = resB, resA
+			}
+			stored, has := pre, hasPre
+			for i, e := range []rhp3.RegistryEntry{first, second} {
+				r := res1
+				if i == 1 {
+					r = res2
+				}
+				tie := false
+				if has {
+					tie = rhp3.ValidateRegistryUpdate(rhp3.RegistryEntry{RegistryKey: key, RegistryValue: stored}, e, hostID) == nil
+				}
+				em.Step(fmt.Sprintf("Put %d %s true %s", k, entryOf(e.RegistryValue), coqBool(tie)),
+					fmt.Sprintf("OPut %s %s", coqBool(r.err == nil), vidOf(r.ret)))
+				if r.err == nil {
+					if has && !tie {
+						em.Monitor("accepted-non-superseding-update", fmt.Sprintf("racing puts on key %d: stored rev %d, accepted rev %d", k, stored.Revision, e.Revision))
+					}
+					stored, has = e.RegistryValue, true
+					shadow[k] = vidOf(e.RegistryValue)
+				}
+			}
+			em.Count("op:RacePut")
 		}
 
 		if id == 0 {
@@ -253,9 +341,14 @@ func TestVerifC20(t *testing.T) {
 			steps := 5 + rng.Intn(25)
 			for i := 0; i < steps; i++ {
 				switch r := rng.Intn(20); {
-				case r < 13:
+				case r < 12:
 					k := rng.Intn(4)
 					put(k)
+					get(k)
+					info()
+				case r < 14 && id%4 == 1:
+					k := rng.Intn(4)
+					race(k)
 					get(k)
 					info()
 				case r < 16:
